@@ -90,7 +90,7 @@ Record sensor := {
   s_type : string;              (* sensor_type *)
   s_model : string;             (* camera_type name; "" when not a camera *)
   s_cparams : list Q;           (* camera_params as floats; [] when not a camera *)
-  s_params : list string;       (* sensor_params when not a camera; [] for cameras *)
+  s_params : list string;       (* raw sensor_params (for a camera: model name followed by the parameter texts) *)
 }.
 
 Record pose := {
